@@ -17,11 +17,12 @@ MODEL_TARGETS = ["Model/InstrOf.vo", "Model/Run.vo", "Lib/Enc.vo", "Spec/Wf.vo"]
 ASSUMPTIONS = [
     "process-level state outside the VirtualMachine attributes (module globals, default-argument objects) is "
     "invisible to the theorems; the in-process repeat / interleave runs of this check are the only guard there",
-    "the throttled-vs-unthrottled comparison is a theorem between throttled runs of different limits and a "
-    "differential test (real machine, every n) against the unthrottled run",
+    "the throttled-vs-unthrottled comparison is a theorem (nothing executed touches op_count: Gen/Indep.v is "
+    "regenerated with the code model, one lemma per generated definition); the real machine is also compared "
+    "for every n against a snapshot of the unthrottled run",
 ]
-TRUSTED = ["coq/Model/Run.v"]
-NOTES = ["PARTIAL: see level text"]
+TRUSTED = ["coq/Model/Run.v", "coq/Lib/Indep.v", "tools/translate/genindep.py"]
+NOTES = ["PARTIAL only for process-level isolation: see level text"]
 
 
 class Snapshotter(list):
